@@ -526,7 +526,17 @@ impl<'a> IExec<'a> {
             }
         }
         let meta: Option<(String, String, u32)> = reg.map(|(t, _)| (self.toks[t].name.clone(), self.toks[t].symbol.clone(), self.toks[t].decimals));
-        let payload: Vec<u8> = match &meta {
+        // the payer's authorisation is always built for the request as it would be
+        // announced if it went through: for a canonical token that is not registered the
+        // would-be payload is still known (the token's own metadata), so a missing
+        // registration check cannot hide behind a mismatching authorisation
+        let would_be: Option<(String, String, u32)> = meta.clone().or_else(|| {
+            canonical.map(|tk| {
+                let t = tk as usize % self.toks.len();
+                (self.toks[t].name.clone(), self.toks[t].symbol.clone(), self.toks[t].decimals)
+            })
+        });
+        let payload: Vec<u8> = match &would_be {
             Some((n, s, d)) => AHub { send: true, chain: dchain.to_string(), msg: AMsg::Deploy { id, name: n.clone(), symbol: s.clone(), decimals: *d as u8, minter: vec![] } }.encode(),
             None => vec![],
         };
